@@ -21,7 +21,7 @@ func createDynForEMADynamicSampler(c *config.EMADynamicSamplerConfig) *dynsample
 
 	dynsampler := &dynsampler.EMASampleRate{
 		GoalSampleRate:             c.GoalSampleRate,
-		AdjustmentIntervalDuration: time.Duration(c.AdjustmentInterval),
+		AdjustmentIntervalDuration: max(time.Duration(c.AdjustmentInterval), 0), // 0 selects the default; a negative duration would panic in time.NewTicker
 		Weight:                     c.Weight,
 		AgeOutValue:                c.AgeOutValue,
 		BurstDetectionDelay:        c.BurstDetectionDelay,
